@@ -241,101 +241,104 @@ def run(prog: Program, rep, thorough: bool) -> None:
     check_schedule(prog, rep, 'C11.R3')
 
 
-class _LoopEnv(dict):
-    """Sample point: a record distance that a loop may have advanced (havocked by engine D: `...@loopN`) stays where it
-    was, because at the sample points no further whole step fits."""
-
-    def __missing__(self, key):
-        if '@loop' in key and 'next_record_distance' in key:
-            return self['nrd']
-        raise KeyError(key)
-
-
 def check_range_sample_independent(prog: Program, rep, sr, rule: str) -> None:
     """Non-interference by evaluation: should_record is evaluated for several requests (filter masks with and without
-    the event bits, with and without a time step, events pending or not) on one symbolic sample, and the outcomes are
-    compared at numeric sample points where a range row is due (one and several steps beyond the record distance):
-    the sample handed back - time, position, velocity, Mach - must be the same for every request, and must lie at the
-    record distance."""
+    the event bits, with and without a time step, events pending or not) at sample geometries where a range row is due
+    - the sample just beyond, exactly at, and several whole steps beyond the record distance; the geometry (down-range
+    positions, record distance, step) is concrete so that the skip-ahead loop is read pass by pass, everything else
+    (time, heights, velocities, Mach) symbolic.  The sample handed back - time, Mach, position, velocity as rational
+    expressions - must be the same for every request, and must lie at a record distance."""
     from .c15 import _flags, _mk_filter
-    from .c16 import reachable_leaves, value_at
     tc = prog.module(C.M_TC)
     flags = _flags(prog, Evaluator(prog))
     R, ALL_ = flags['RANGE'], flags['ALL']
     requests = [('plain range card', R, 0.0, 0), ('extra data', ALL_, 0.0, 0), ('time step', R, 0.5, 0),
                 ('extra data and time step', ALL_, 0.25, 0), ('extra data, a crossing pending', ALL_, 0.0, flags['ZERO_DOWN']),
                 ('Mach rows, a crossing pending', R | flags['MACH'], 0.0, flags['MACH'])]
-    geometries = [('the sample just beyond the record distance', {'qx': 25.0, 'px': 15.0}),
-                  ('the sample exactly at the record distance', {'qx': 20.0, 'px': 15.0})]
-    base_env = {'qy': 3.0, 'qz': 0.125, 'py': 2.0, 'pz': 0.0, 'nrd': 20.0, 'rs': 10.0, 'tm': 1.0, 'pt': 0.875, 'am': 1100.0,
-                'pmach': 1110.0, 'ux': 2000.0, 'uy': 10.0, 'uz': 1.0, 'pvx': 2010.0, 'pvy': 12.0, 'pvz': 1.5, 'tlr': 0.25,
-                'pvm': 1.9, 'L': 0.0}
-    outcomes: Dict[str, Dict[str, tuple]] = {}
-    n_eval = 0
-    for label, mask, ts, pending in requests:
-        ev = Evaluator(prog)
-        st = State()
-        flt = _mk_filter(ev, st, prog, filter=Scalar(mask), time_step=Scalar(Fraction(str(ts))), current_flag=Scalar(pending))
-        pos = C.mk_vec(ev, st, prog, 'qx', 'qy', 'qz')
-        vel = C.mk_vec(ev, st, prog, 'ux', 'uy', 'uz')
-        try:
-            tree, st = ev.run_func(sr, {sr.positional[0]: flt, sr.positional[1]: pos, sr.positional[2]: vel,
-                                        sr.positional[3]: S('am'), sr.positional[4]: S('tm')}, st)
-        except Undecided as exc:
-            raise AnalysisError(f'should_record ({label}): {exc}') from exc
-        loop_syms = set()
-        for path_, lf_ in leaves(tree):
-            for t_, _pol in path_:
-                if t_.rf is not None:
-                    loop_syms |= {x for x in t_.rf.symbols() if '@loop' in x}
-        for gname, genv in geometries:
-            env = _LoopEnv(base_env)
-            env.update(genv)
-            lfs = [lf_ for lf_ in reachable_leaves(tree, env) if lf_.kind != 'raise']
-            sigs = set()
-            for lf0 in lfs:
-                sig = None
-                if lf0.kind == 'return':
-                    v = value_at(lf0.value, env)
+    # (label, x of the sample, x of the previous sample, record distance due, step, x expected of the row)
+    geometries = [('the sample just beyond the record distance', 25, 15, 20, 10, 20),
+                  ('the sample exactly at the record distance', 20, 15, 20, 10, 20),
+                  ('the sample several whole steps beyond the record distance', 45, 15, 20, 10, None)]
+    outcomes: Dict[str, Dict[str, object]] = {}
+    for gname, qx, px, nrd, rs, _want in geometries:
+        for label, mask, ts, pending in requests:
+            ev = Evaluator(prog)
+            ev.unroll = True
+            st = State()
+            flt = _mk_filter(ev, st, prog, filter=Scalar(mask), time_step=Scalar(Fraction(str(ts))), current_flag=Scalar(pending),
+                             next_record_distance=Scalar(nrd), range_step=Scalar(rs),
+                             previous_position=C.mk_vec(ev, st, prog, Scalar(px), 'py', 'pz'),
+                             time_of_last_record=Scalar(Fraction(1, 4)), previous_time=S('pt'), previous_v_mach=S('pvm'))
+            pos = C.mk_vec(ev, st, prog, Scalar(qx), 'qy', 'qz')
+            vel = C.mk_vec(ev, st, prog, 'ux', 'uy', 'uz')
+            try:
+                tree, st = ev.run_func(sr, {sr.positional[0]: flt, sr.positional[1]: pos, sr.positional[2]: vel,
+                                            sr.positional[3]: S('am'), sr.positional[4]: Scalar(1)}, st)
+            except Undecided as exc:
+                raise AnalysisError(f'should_record ({label}, {gname}): {exc}') from exc
+            sigs = []
+            for path_, lf in leaves(tree):
+                if lf.kind == 'raise':
+                    continue
+                # guards on symbols other than the debug switch make the outcome depend on values the sample point leaves open
+                sig: object = None
+                if lf.kind == 'return':
+                    v = lf.value
                     if isinstance(v, Inst):
-                        h = lf0.state.heap
+                        h = lf.state.heap
                         d = h[v.oid]
-                        vals = []
                         try:
-                            for fld in ('time', 'mach'):
-                                vals.append(round(float(value_at(d[fld], env).rf.evalf(env)), 9))
+                            vals = [d[fld].rf for fld in ('time', 'mach')]
                             for fld in ('position', 'velocity'):
-                                o = value_at(d[fld], env)
-                                vals += [round(float(value_at(h[o.oid][c_], env).rf.evalf(env)), 9) for c_ in 'xyz']
+                                vals += [h[d[fld].oid][c_].rf for c_ in 'xyz']
                             sig = tuple(vals)
-                        except (KeyError, AttributeError, ValueError, ZeroDivisionError, TypeError):
+                        except (KeyError, AttributeError):
                             sig = None
                     elif isinstance(v, Const) and v.value is None:
                         sig = ('no sample',)
-                sigs.add(sig)
-            sig = next(iter(sigs)) if len(sigs) == 1 else None
-            n_eval += 1
-            outcomes.setdefault(gname, {})[label] = sig
+                sigs.append(sig)
+            uniq = []
+            for sg in sigs:
+                if not any(_same_sig(sg, u) for u in uniq):
+                    uniq.append(sg)
+            outcomes.setdefault(gname, {})[label] = uniq
     problems = []
-    for gname, per in outcomes.items():
-        ref_label = requests[0][0]
-        ref = per[ref_label]
-        if ref is None or any(v is None for v in per.values()):
-            raise AnalysisError(f'should_record: the outcome at the sample point ({gname}) is not one concrete sample for '
-                                f'{[k for k, v in per.items() if v is None]}')
-        if ref == ('no sample',) or abs(ref[2] - 20.0) > 1e-9:
-            problems.append(f'{gname}: the plain range card gets {"no row" if ref == ("no sample",) else f"a row at x = {ref[2]}"} '
-                            f'instead of one at the record distance 20')
-        for label, sig in per.items():
-            if sig != ref:
-                what = 'no sample' if sig == ('no sample',) else f'(t, Mach, x, y, z, ...) = {sig[:5]}'
-                problems.append(f'{gname}: with {label} the range row is {what}, with a plain range card it is {ref[:5]}')
+    for gname, qx, px, nrd, rs, want_x in geometries:
+        per = outcomes[gname]
+        unread = [k for k, v in per.items() if not v or any(x is None for x in v)]
+        if unread or len(per[requests[0][0]]) != 1:
+            raise AnalysisError(f'should_record: the outcome at the sample point ({gname}) is not readable as samples for '
+                                f'{unread or [requests[0][0]]}')
+        ref = per[requests[0][0]][0]
+        if ref == ('no sample',):
+            problems.append(f'{gname}: the plain range card gets no row')
+        else:
+            x_row = ref[2]
+            ok_x = x_row.is_const() and (x_row.const_value() == want_x if want_x is not None else
+                                         (px < x_row.const_value() <= qx and (x_row.const_value() - nrd) % rs == 0))
+            if not ok_x:
+                problems.append(f'{gname}: the plain range card gets a row at x = {x_row!r}, not at a record distance '
+                                f'({want_x if want_x is not None else "20, 30 or 40"})')
+        for label, alts in per.items():
+            for sig in alts:
+                if not _same_sig(sig, ref):
+                    what = 'no sample' if sig == ('no sample',) else f'(t, Mach, x, y, ...) = {tuple(sig[:4])!r}'
+                    some = ' on some path (depending on the sample\'s height / speed)' if len(alts) > 1 else ''
+                    problems.append(f'{gname}: with {label} the range row is {what}{some}, with a plain range card it is '
+                                    f'{tuple(ref[:4])!r}')
+                    break
     if problems:
         rep.fail(rule, tc.path, sr.node.lineno, sr.qualname, 'range-sample', '; '.join(problems[:2]) +
                  ': a range row changes when extra data or a time step is requested')
     else:
         rep.ok(rule, sr.where, f'the sample of a due range row is the same for {len(requests)} requests (masks, time steps, pending '
-               f'events) at {len(geometries)} sample geometries, and lies at the record distance')
+               f'events) at {len(geometries)} sample geometries, and lies at a record distance')
+
+
+def _same_sig(a, b) -> bool:
+    if a is None or b is None or a == ('no sample',) or b == ('no sample',):
+        return a == b
+    return len(a) == len(b) and all(x.equals(y) for x, y in zip(a, b))
 
 
 SCHEDULE = ('next_record_distance', 'time_of_last_record')
